@@ -369,8 +369,12 @@ class Ctx:
             "wall_s": round(wall, 2),
             "violations": len(self.violations),
         }
-        os.makedirs(os.path.join(VERIF, "evidence"), exist_ok=True)
-        path = os.path.join(VERIF, "evidence", self.pid + ".json")
+        # evidence describes /repo; a run against a scratch tree (VERIF_REPO: seeded changes) writes elsewhere
+        evdir = os.path.join(VERIF, "evidence")
+        if os.environ.get("VERIF_REPO"):
+            evdir = os.environ.get("VERIF_EVIDENCE_DIR") or os.path.join(tempfile.gettempdir(), "verif-scratch-evidence-%d" % os.getpid())
+        os.makedirs(evdir, exist_ok=True)
+        path = os.path.join(evdir, self.pid + ".json")
         tmp = path + ".tmp"
         with open(tmp, "w") as fh:
             json.dump(ev, fh, indent=1, default=str)
@@ -381,7 +385,7 @@ class Ctx:
                 print("KNOWN-FINDING: property=%s %s (%d matching cases this run)"
                       % (self.pid, f["what"], self.known_hits[f["id"]]), flush=True)
         if self.violations:
-            rdir = os.path.join(VERIF, "evidence", "replay")
+            rdir = os.path.join(evdir, "replay")
             os.makedirs(rdir, exist_ok=True)
             shown = 0
             for i, v in enumerate(self.violations[:20]):
